@@ -80,6 +80,7 @@ struct msg_s {
 	unsigned stamp;		/* global order of the callback */
 	int	wr_failed;	/* the model's write() refused this packet */
 	int	dst_running;	/* tpt_is_running(dst) at the time of the send */
+	unsigned sent_at;	/* global time of the tpt_msg_send call (a nested send happens later than its step index says) */
 };
 static struct msg_s	msg[NSTEP];
 static unsigned		clk;
@@ -162,6 +163,7 @@ do_send(int s) {
 	tpt_p dst = dst_tpt(d), src = NULL;
 	uint32_t flags = st->flags & TP_MSG_F__ALL__;
 	int before_fail = v_n_write_fail;
+	m->sent_at = ++ clk;
 
 	if (v_cur >= 0 && !st->src_null)
 		src = thr_tpt(v_cur);
@@ -279,10 +281,13 @@ harness(void) {
 			else
 				V_ASSERT(m->ran_on >= 0 && m->ran_on < NTHR, "virtual-thread message ran on one pool thread");
 		}
-		for (j = i + 1; j < NSTEP; j ++) {
+		/* send order = order of the tpt_msg_send calls (sent_at), not of the step indices: a send issued from inside a
+		 * callback (nested step) happens when that callback runs. [First thorough run: the index-based form of this oracle
+		 * raised a false alarm on pattern nsrs; corrected.] */
+		for (j = 0; j < NSTEP; j ++) {
 			struct msg_s *n = &msg[j];
-			if (n->sent && 0 == n->ret && n->sender == m->sender && n->dst == m->dst && m->dst < NTHR &&
-			    0 == m->cnt_at_ret && 0 == n->cnt_at_ret && 1 == n->cnt)
+			if (j != i && n->sent && 0 == n->ret && n->sender == m->sender && n->dst == m->dst && m->dst < NTHR &&
+			    0 == m->cnt_at_ret && 0 == n->cnt_at_ret && 1 == n->cnt && m->sent_at < n->sent_at)
 				V_ASSERT(m->stamp < n->stamp, "same sender, same real destination: callbacks in send order");
 		}
 	}
